@@ -14,7 +14,7 @@ class Bounds:
     def __init__(self, tier):
         if tier == 'quick':
             self.B = 10 ** 9            # amounts
-            self.scales = [0, 1, 2, 3]  # price / rate scales (10^k)
+            self.scales = [0, 1, 2, 3]  # decimal texts have at most max(scales) fractional digits
             self.precisions = [0, 2]
             self.nlist = 2
         else:
@@ -23,9 +23,11 @@ class Bounds:
             self.precisions = [0, 1, 2, 3, 4, 5, 6]
             self.nlist = 3
         self.tier = tier
+        from . import engine as _E
+        _E.set_dec_scale(max(self.scales))
 
     def describe(self):
-        return {'amounts_lt': self.B, 'decimal_mantissa_lt': self.B, 'decimal_scales': self.scales, 'price_precisions': self.precisions,
+        return {'amounts_lt': self.B, 'decimal_value_times_10^maxscale_lt': self.B, 'decimal_scales': self.scales, 'price_precisions': self.precisions,
                 'rate_range': '[0,1]', 'list_len_le': self.nlist}
 
 
@@ -75,8 +77,7 @@ class Scenario:
         return t
 
     def scale_term(self, d):
-        self.assume.append(z3.Or(*[d == 10 ** k for k in self.b.scales]))
-        self.eng.set_bound(d, 1, 10 ** max(self.b.scales))
+        pass                     # decimals are carried over the constant common denominator 10^max_scale
 
     def decimal_string(self, name, lo, hi_excl=None, positive=False):
         """a string that parses as a decimal with mantissa in [lo, B) and scale in bounds; returns (str, n, d)"""
@@ -91,9 +92,8 @@ class Scenario:
         """request-supplied decimal text: may fail to parse; when it parses the value is inside the bounds (stated bound)"""
         s = self.s(name)
         n, d = f_dec_n(s), f_dec_d(s)
-        self.assume.append(z3.Implies(f_dec_ok(s), z3.And(n > -self.b.B, n < self.b.B, z3.Or(*[d == 10 ** k for k in self.b.scales]))))
+        self.assume.append(z3.Implies(f_dec_ok(s), z3.And(n > -self.b.B, n < self.b.B)))
         self.eng.set_bound(n, -self.b.B + 1, self.b.B - 1)
-        self.eng.set_bound(d, 1, 10 ** max(self.b.scales))
         return s, n, d
 
     # ---------- configuration
